@@ -53,14 +53,15 @@ def onWrite (s : St) (first last : Nat) (cid : Nat) (mn mx : Int) : St × R :=
         -- a snapshot entry that does not account for the records in front of the batch: as a chunk notified from the middle
         let middle := Generated.C02.staleDropOnlyForSnapshotEntries && l.loaded && first > l.recs
         (updLast s.chunks (fun c => { c with minTs := min c.minTs mn, maxTs := max c.maxTs mx, loaded := false }), middle)
-  let chunks := updLast chunks (fun c => { c with recs := last + 1 })
+  let chunks := updLast chunks (fun c => { c with recs := if Generated.C02.onWriteRecsNeverDecrease then max c.recs (last + 1) else last + 1 })
   let s := { s with chunks := chunks }
   match chunks.getLast? with
   | none => (s, .ok)
   | some l =>
     if l.corrupted then (s, .corrupted)
     else if newChk && first > 0 then ({ s with chunks := updLast chunks (fun c => { c with corrupted := true, root := none }) }, .corrupted)
-    else if l.lastRec > 0 && (if Generated.C02.onWriteSkipIsStrictLess then u32sub last l.lastRec < sparseSpace else u32sub last l.lastRec ≤ sparseSpace) then (s, .ok)
+    else if l.lastRec > 0 && ((Generated.C02.onWriteSkipsLateNotification && last ≤ l.lastRec) ||
+        (if Generated.C02.onWriteSkipIsStrictLess then u32sub last l.lastRec < sparseSpace else u32sub last l.lastRec ≤ sparseSpace)) then (s, .ok)
     else
       let it : Points.Iv := ⟨⟨mn, first⟩, ⟨mx, last⟩⟩
       match l.root with
